@@ -98,13 +98,11 @@ func checkC13(c *an.Ctx) {
 
 func perJobDeadline(c *an.Ctx, ex *ssa.Function, rule string) {
 	p := c.P
-	var run *ssa.Call
-	for _, ci := range an.CallsIn(ex, "(*mvdan.cc/sh/v3/interp.Runner).Run") {
-		run, _ = ci.(*ssa.Call)
-	}
+	er := resolveExec(p)
+	run := er.run
 	var wt *ssa.Call
-	for _, ci := range an.CallsIn(ex, "context.WithTimeout") {
-		wt, _ = ci.(*ssa.Call)
+	for _, call := range er.callsIn("context.WithTimeout") {
+		wt = call
 	}
 	if run == nil {
 		c.Und(rule, an.Short(ex)+":interp.Run", ex.Pos(), "no synchronous interpreter call")
@@ -115,9 +113,9 @@ func perJobDeadline(c *an.Ctx, ex *ssa.Function, rule string) {
 		return
 	}
 	ctxParam := ex.Params[1]
-	// parent and duration
+	// parent and duration (followed out of a helper to Execute's own parameter)
 	parentOK := false
-	for _, src := range an.Sources(wt.Call.Args[0]) {
+	for _, src := range er.sources(wt.Call.Args[0]) {
 		if src == ssa.Value(ctxParam) {
 			parentOK = true
 		} else {
@@ -142,7 +140,7 @@ func perJobDeadline(c *an.Ctx, ex *ssa.Function, rule string) {
 	wtCtx := extractOf(wt, 0)
 	for _, set := range []bool{true, false} {
 		set := set
-		exp := &an.Explorer{P: p, NoReturn: noReturn}
+		exp := er.explorer()
 		exp.Atom = func(v ssa.Value) (an.AVal, bool) {
 			if eq, ok := isTimeoutNil(v); ok {
 				return an.ABool(eq != set), true
@@ -154,8 +152,9 @@ func perJobDeadline(c *an.Ctx, ex *ssa.Function, rule string) {
 			if in != ssa.Instruction(run) {
 				return ""
 			}
-			// which value reaches the ctx argument on this path? follow φ by the path's evaluation
-			arg := run.Call.Args[1]
+			// which value reaches the ctx argument on this path? through inlined helpers by identity,
+			// through φ by the path's evaluation
+			arg := st.Root(run.Call.Args[1])
 			srcs := phiSourcesUnder(arg, func(cond ssa.Value) (bool, bool) {
 				if eq, ok := isTimeoutNil(cond); ok {
 					return eq != set, true
@@ -164,6 +163,7 @@ func perJobDeadline(c *an.Ctx, ex *ssa.Function, rule string) {
 			})
 			var labels []string
 			for _, s := range srcs {
+				s = st.Root(s)
 				switch {
 				case s == ssa.Value(ctxParam):
 					labels = append(labels, "param")
@@ -201,48 +201,80 @@ func perJobDeadline(c *an.Ctx, ex *ssa.Function, rule string) {
 	}
 	// the derived context is not stored in a field
 	stored := false
-	for _, w := range wtCtx {
-		for _, rr := range *w.Referrers() {
-			if st, ok := rr.(*ssa.Store); ok {
-				if _, isField := st.Addr.(*ssa.FieldAddr); isField {
-					stored = true
-				}
+	for _, f := range er.scope {
+		an.EachInstr(f, func(in ssa.Instruction) {
+			st, ok := in.(*ssa.Store)
+			if !ok {
+				return
 			}
-		}
-	}
-	c.Check(!stored, rule, an.Short(ex)+":deadline-not-kept", wt.Pos(), "the derived context lives for this call only", "the derived context is stored in a field: later commands would share one deadline")
-	// cancel on every exit
-	cancelVals := extractOf(wt, 1)
-	released, _ := an.OnAllPathsToExit(wt, func(in ssa.Instruction) bool {
-		d, ok := in.(*ssa.Defer)
-		if !ok {
-			return false
-		}
-		// direct defer cancel()
-		for _, cv := range cancelVals {
-			if an.SameValue(d.Call.Value, cv) {
-				return true
+			if _, isField := st.Addr.(*ssa.FieldAddr); !isField {
+				return
 			}
-		}
-		for _, callee := range p.Callees(&d.Call) {
-			found := false
-			an.EachInstr(callee, func(y ssa.Instruction) {
-				if call, ok := y.(*ssa.Call); ok {
-					for _, src := range an.Sources(call.Call.Value) {
-						for _, cv := range cancelVals {
-							if src == cv {
-								found = true
-							}
-						}
+			for _, src := range er.sources(st.Val) {
+				for _, w := range wtCtx {
+					if src == w {
+						stored = true
 					}
 				}
-			})
-			if found {
-				return true
+			}
+		})
+	}
+	c.Check(!stored, rule, an.Short(ex)+":deadline-not-kept", wt.Pos(), "the derived context lives for this call only", "the derived context is stored in a field: later commands would share one deadline")
+	// cancel on every exit: from the point in Execute where the deadline exists (the WithTimeout call, or the
+	// call of the helper that makes it), every path to an exit passes a defer that calls the cancel function
+	cancelVals := extractOf(wt, 1)
+	isCancel := func(v ssa.Value) bool {
+		for _, src := range er.sources(v) {
+			for _, cv := range cancelVals {
+				if src == cv {
+					return true
+				}
 			}
 		}
 		return false
-	}, nil)
+	}
+	var origin ssa.Instruction = wt
+	if wt.Parent() != ex {
+		origin = nil
+		an.EachInstr(ex, func(in ssa.Instruction) {
+			call, ok := in.(*ssa.Call)
+			if !ok || origin != nil {
+				return
+			}
+			for _, callee := range p.Callees(&call.Call) {
+				if er.in[callee] {
+					if _, reaches := p.Reach([]*ssa.Function{callee}, func(e an.CallEdge) bool { return er.in[e.Callee] })[wt.Parent()]; reaches {
+						origin = call
+					}
+				}
+			}
+		})
+	}
+	released := false
+	if origin != nil {
+		released, _ = an.OnAllPathsToExit(origin, func(in ssa.Instruction) bool {
+			d, ok := in.(*ssa.Defer)
+			if !ok {
+				return false
+			}
+			// direct defer cancel()
+			if isCancel(d.Call.Value) {
+				return true
+			}
+			for _, callee := range p.Callees(&d.Call) {
+				found := false
+				an.EachInstr(callee, func(y ssa.Instruction) {
+					if call, ok := y.(*ssa.Call); ok && isCancel(call.Call.Value) {
+						found = true
+					}
+				})
+				if found {
+					return true
+				}
+			}
+			return false
+		}, nil)
+	}
 	c.Check(released, rule, an.Short(ex)+":cancel-released", wt.Pos(), "the deadline's cancel function is deferred on every path", "the deadline's cancel function is not released on every exit")
 }
 
